@@ -1,4 +1,5 @@
 import SnaxVerif.Lemmas.Tsl
+import SnaxVerif.Lemmas.TslResolve
 /-!
 # C10 — a tiled-strided layout means the same thing everywhere
 
@@ -205,6 +206,137 @@ theorem stepsAt_allDynamic_fails :
     stepsAt ⟨[[⟨none, none⟩], [⟨none, none⟩]], some 0⟩ [[12], [12]] 4 = .ok [[0], [0]] := by
   decide +kernel
 
+/-! ## Deepening round: the loop-nest view, the resolved layout of dynamic layouts, fix FC10a, canonical form of
+dynamic layouts -/
+
+/-- **The bound/step ops describe a loop nest that visits exactly `el · addr` over the box.** For every static
+positive layout, every element size and every runtime shape: `get_bound_ops` and `get_step_ops` succeed, and the
+loop nest over their values (dimension-major, outermost tile first, innermost fastest — the DMA loop nest before
+reordering, the allocation extent) enumerates `el · addr s p` for `p` in row-major order over the logical box. -/
+theorem loopNest_eq (s : SLayout) (off : Option Int) (el : Nat) (hel : 0 < el) (hpos : SPos s) (hs : s ≠ [])
+    (hne : ∀ t ∈ s, t ≠ []) (runtimeShape : List Nat) (hlen : runtimeShape.length = s.length) :
+    ∃ bs ss, boundsAt (ofStatic s off).ts runtimeShape = .ok bs ∧ stepsAt (ofStatic s off) bs el = .ok ss ∧
+      nestValues (nestOf bs ss) = (points (shape s)).map fun p => el * addr s p :=
+  ⟨_, _, Tsl.boundsAt_static s runtimeShape hlen hne, stepsAt_ofStatic s off el hs hne, nest_static s el hel hpos⟩
+
+/-- **Resolving a static layout gives the layout itself**: the static layout described by the ops at run time
+(the meaning the DMA / allocation code attaches to a layout) is `s`, so every theorem about `addr s` is a
+theorem about what the ops compute. -/
+theorem resolve_static (s : SLayout) (off : Option Int) (runtimeShape : List Nat)
+    (hlen : runtimeShape.length = s.length) (hs : s ≠ []) (hne : ∀ t ∈ s, t ≠ []) :
+    resolve (ofStatic s off) runtimeShape = .ok s :=
+  resolve_ofStatic s off runtimeShape hlen hs hne
+
+/-- **The resolved layout of a dynamic layout is one-to-one on the runtime box** (was: oracle only). For every
+layout (static and dynamic tiles in any positions), resolved bounds and element size for which the step ops
+are produced: if the static tiles alone are one-to-one (`staticInjective`) and stay below the seed of the dynamic
+chain (`staticBelowSeed`), then two digit vectors of the runtime box with the same address are equal.
+Digit vectors and steps are listed right to left (innermost tile of the last dimension first), as the code
+assigns them. -/
+theorem resolved_injective_partial (l : Layout) (bounds : List (List Nat)) (el : Nat) (steps : List (List Nat))
+    (h : stepsAt l bounds el = .ok steps)
+    (staticBelowSeed : statSpan el (l.strides.zip bounds.flatten).reverse < seedOf l bounds el)
+    (staticInjective : ∀ ds es, InRange (((l.strides.zip bounds.flatten).reverse).map (·.2)) ds →
+      InRange (((l.strides.zip bounds.flatten).reverse).map (·.2)) es →
+      statSum el (l.strides.zip bounds.flatten).reverse ds = statSum el (l.strides.zip bounds.flatten).reverse es →
+      statDigits (l.strides.zip bounds.flatten).reverse ds = statDigits (l.strides.zip bounds.flatten).reverse es)
+    (ds es : List Nat) (hd : InRange (((l.strides.zip bounds.flatten).reverse).map (·.2)) ds)
+    (he : InRange (((l.strides.zip bounds.flatten).reverse).map (·.2)) es)
+    (heq : dotDigits steps.flatten.reverse ds = dotDigits steps.flatten.reverse es) : ds = es := by
+  rw [stepsAt_flat l bounds el steps h] at heq
+  exact stepsRev_injective el _ _ staticBelowSeed staticInjective ds es hd he heq
+
+/-- the clause `staticBelowSeed` cannot be dropped: `[?, 2, 4] -> (?, 3, 2)` at extent 16 has one-to-one static
+tiles (addresses 0,2,3,4,5,6,7,9) reaching 9, the seed is 3·2 = 6, and the resolved steps (6, 3, 2) send the
+digit vectors (innermost first) [3,0,0] and [0,0,1] both to address 6. -/
+theorem resolved_injective_fails :
+    let l : Layout := ⟨[[⟨none, none⟩, ⟨some 3, some 2⟩, ⟨some 2, some 4⟩]], some 0⟩
+    stepsAt l [[2, 2, 4]] 1 = .ok [[6, 3, 2]] ∧ (nestValues [(2, 3), (4, 2)]).Nodup ∧
+      seedOf l [[2, 2, 4]] 1 = 6 ∧ statSpan 1 (l.strides.zip [2, 2, 4]).reverse = 9 ∧
+      dotDigits [2, 3, 6] [3, 0, 0] = dotDigits [2, 3, 6] [0, 0, 1] := by
+  decide +kernel
+
+/-- **Fix FC10a leaves every layout with a static step alone**: if some tile has a positive static step, the
+repaired `get_step_ops` computes exactly what the code as found computes (so `stepsAt_static`, `stepsAt_chain`,
+`resolved_injective_partial`, … carry over verbatim). -/
+theorem stepsAtN1_agrees (l : Layout) (bounds : List (List Nat)) (el : Nat)
+    (hasStaticStep : ∃ x ∈ l.strides, ∃ st, x.step = some st ∧ 0 < st) :
+    stepsAtN1 l bounds el = stepsAt l bounds el := by
+  apply stepsAtN1_eq
+  obtain ⟨x, hx, st, hst, hpos⟩ := hasStaticStep
+  have := (maxStep_ge l.strides 0 (l.strides.length - 1) 0).2 x hx st hst
+  omega
+
+/-- **bytes = element size × elements** also holds for the repaired code, for every layout. -/
+theorem stepsAtN1_bytes (l : Layout) (bounds : List (List Nat)) (el : Nat) :
+    stepsAtN1 l bounds el = (stepsAtN1 l bounds 1).map (·.map (·.map (· * el))) :=
+  stepsAtN1_scale l bounds el
+
+/-- **With fix FC10a a layout without any static step is row-major** (this removes the clause `hasStaticStep`
+= finding C10-N1): read right to left, tile `i` gets `el · Π (extents of the tiles before it)`, and for `el > 0`
+the resolved layout is one-to-one on the runtime box. Any rank, any depth, any extents. -/
+theorem stepsAtN1_allDynamic (l : Layout) (bounds : List (List Nat)) (el : Nat) (steps : List (List Nat))
+    (hall : ∀ x ∈ l.strides, x.step = none) (h : stepsAtN1 l bounds el = .ok steps) :
+    (∀ (i : Nat) (s : Stride) (b : Nat), ((l.strides.zip bounds.flatten).reverse)[i]? = some (s, b) →
+        steps.flatten.reverse[i]? = some (el * prodL ((((l.strides.zip bounds.flatten).reverse).take i).map (·.2)))) ∧
+      (0 < el → ∀ ds es, InRange (((l.strides.zip bounds.flatten).reverse).map (·.2)) ds →
+        InRange (((l.strides.zip bounds.flatten).reverse).map (·.2)) es →
+        dotDigits steps.flatten.reverse ds = dotDigits steps.flatten.reverse es → ds = es) := by
+  have hflat := stepsAtN1_flat l bounds el steps h
+  have hL := mem_zip_reverse_step l bounds.flatten hall
+  have hseed : seedN1 l bounds el = el := by
+    simp only [seedN1, maxStep_allDyn l.strides hall, if_true]
+  rw [hseed] at hflat
+  refine ⟨?_, ?_⟩
+  · intro i s b hi
+    have hs : s.step = none := hL (s, b) (List.mem_of_getElem? hi)
+    rw [hflat, stepsRev_getElem el _ _ i s b hi]
+    simp only [hs]
+    rw [dynProd_allDyn _ (fun p hp => hL p (List.mem_of_mem_take hp))]
+  · intro hel ds es hd he heq
+    rw [hflat] at heq
+    refine stepsRev_injective el _ el ?_ ?_ ds es hd he heq
+    · rw [statSpan_allDyn el _ hL]; exact hel
+    · intro ds' es' _ _ _
+      rw [statDigits_allDyn _ ds' hL, statDigits_allDyn _ es' hL]
+
+/-- **Canonicalising a dynamic layout** whose dimensions are `[?, inner…] -> (s?, inner…)` (outermost bound
+dynamic, outermost step static or dynamic, inner tiles static with positive bounds; any rank and depth):
+`canonicalize` rewrites only the static inner tiles, the resolved bounds and the inner address function are
+unchanged, and — clause `seedPreserved`: the seed of the dynamic chain (extent × largest static step) is the same
+before and after — the layouts resolved at the same runtime shape address EVERY index identically. -/
+theorem canonicalize_dynamic_partial (ds : List DynDim) (off : Option Int) (runtimeShape : List Nat)
+    (hlen : runtimeShape.length = ds.length) (hpos : ∀ d ∈ ds, ∀ x ∈ d.2, 0 < x.bound) (R Rc : SLayout)
+    (hR : resolve ⟨ds.map DynDim.toTStride, off⟩ runtimeShape = .ok R)
+    (hRc : resolve (Layout.canonicalize ⟨ds.map DynDim.toTStride, off⟩) runtimeShape = .ok Rc)
+    (seedPreserved :
+      seedOf ⟨(ds.map canonD).map DynDim.toTStride, off⟩ (List.zipWith DynDim.boundsFor (ds.map canonD) runtimeShape) 1
+        = seedOf ⟨ds.map DynDim.toTStride, off⟩ (List.zipWith DynDim.boundsFor ds runtimeShape) 1) :
+    Layout.canonicalize ⟨ds.map DynDim.toTStride, off⟩ = ⟨(ds.map canonD).map DynDim.toTStride, off⟩ ∧
+      ∀ idx, addr Rc idx = addr R idx := by
+  refine ⟨canonicalize_dyn ds off, ?_⟩
+  rw [canonicalize_dyn] at hRc
+  have hposc : ∀ d ∈ ds.map canonD, ∀ x ∈ d.2, 0 < x.bound := by
+    intro d hd x hx
+    obtain ⟨d0, hd0, rfl⟩ := List.mem_map.mp hd
+    exact canonS_bound_pos d0.2 (hpos d0 hd0) x hx
+  have h1 := resolve_dyn ds off runtimeShape hlen hpos R hR
+  have h2 := resolve_dyn (ds.map canonD) off runtimeShape (by simpa using hlen) hposc Rc hRc
+  rw [seedPreserved, zip_map_canonD] at h2
+  intro idx
+  rw [h1, h2]
+  exact (addr_resolvedOf_canon _ (ds.zip runtimeShape)).2 idx
+
+/-- C10-N3 (open finding, clause `seedPreserved`): `[?, 1, 4] -> (?, 100, 1)` at extent 12 resolves to steps
+(100, 100, 1); its canonical form `[?, 4] -> (?, 1)` resolves to (4, 1): the unit tile that carried the largest
+static step is dropped, the seed changes from 100 to 4 and index 4 moves from address 100 to address 4. -/
+theorem canonicalize_dynamic_seed_fails :
+    let l : Layout := ⟨[[⟨none, none⟩, ⟨some 100, some 1⟩, ⟨some 1, some 4⟩]], some 0⟩
+    resolve l [12] = .ok [[⟨100, 3⟩, ⟨100, 1⟩, ⟨1, 4⟩]] ∧
+      resolve l.canonicalize [12] = .ok [[⟨4, 3⟩, ⟨1, 4⟩]] ∧
+      addr [[⟨100, 3⟩, ⟨100, 1⟩, ⟨1, 4⟩]] [4] = 100 ∧ addr [[⟨4, 3⟩, ⟨1, 4⟩]] [4] = 4 := by
+  decide +kernel
+
 /-- what the property's quantifier needs for the textual form: no step or bound is the literal `0` (the
 printer writes `?` for it: `str(x) if x else "?"`), and a rank-0 layout has offset 0 (otherwise the printed
 form starts with a comma). Dynamic entries, dynamic / negative offsets, unit bounds, any rank and depth are
@@ -263,6 +395,9 @@ example : fromStrides [some 24] [[some 2, some 6, some 4]] (some 0) = ofStatic [
   decide +kernel
 example : stepsAt ⟨[[⟨none, none⟩, ⟨some 4, some 4⟩], [⟨none, none⟩, ⟨some 1, some 4⟩]], some 0⟩ [[3, 4], [5, 4]] 4
     = .ok [[320, 16], [64, 4]] := by decide +kernel
+example : stepsAtN1 ⟨[[⟨none, none⟩], [⟨none, none⟩]], some 0⟩ [[12], [5]] 4 = .ok [[20], [4]] := by decide +kernel
+example : resolve (Layout.canonicalize ⟨[[⟨none, none⟩, ⟨some 4, some 2⟩, ⟨some 1, some 4⟩]], some 0⟩) [24]
+    = .ok [[⟨8, 3⟩, ⟨1, 8⟩]] := by decide +kernel
 example : Printable ⟨[[⟨none, none⟩, ⟨some 4, some 4⟩], [⟨some 16, some 2⟩, ⟨some 1, some 1⟩]], some (-5)⟩ := by
   decide
 example : subviewPtr true 1 4096 [[⟨some 128, some 2⟩, ⟨some 8, some 8⟩], [⟨some 64, some 2⟩, ⟨some 1, some 8⟩]]
